@@ -93,14 +93,14 @@ func c04Encodings() []c04Encoding {
 
 var c04Inputs = map[string]string{
 	// the searched token "foo" occurs as a value, only as a field name, inside array/map/union-wrapped records, in a type value, in a named type
-	"token-as-value":        `{a:"foo",n:1} {a:"bar",n:2} {a:"xfoox",n:3} {a:"FOO",n:4}`,
-	"token-as-field-name":   `{foo:1,n:1} {bar:{foo:2},n:2} {a:"x",n:3}`,
-	"token-in-containers":   `{l:[{foo:1}],n:1} {m:|{"k":{foo:2}}|,n:2} {u:{foo:3}(({foo:int64},string)),n:3} {l:["foo"],n:4} {s:|["foo","bar"]|,n:5} {l:[1,2],n:6}`,
-	"token-in-type-value":   `{t:<{foo:int64}>,n:1} {t:<string>,n:2} {t:<foo=int64>,n:3}`,
-	"token-in-named-type":   `{a:1(foo=int64),n:1} {a:2,n:2} {a:{b:1}(=foo),n:3}`,
-	"numbers-and-nulls":     `{a:1,b:2.5,n:1} {a:null(int64),b:1.,n:2} {a:3,n:3} {a:"1",n:4} {a:1(uint8),n:5}`,
-	"ips-and-nets":          `{a:10.0.0.1,n:1} {a:10.0.0.0/8,n:2} {a:"10.0.0.1",n:3} {a:::1,n:4}`,
-	"mixed-shapes":          `{a:"foo"} 7 "foo" [1,"foo"] {a:{b:"foo"}} null {a:error("foo")}`,
+	"token-as-value":      `{a:"foo",n:1} {a:"bar",n:2} {a:"xfoox",n:3} {a:"FOO",n:4}`,
+	"token-as-field-name": `{foo:1,n:1} {bar:{foo:2},n:2} {a:"x",n:3}`,
+	"token-in-containers": `{l:[{foo:1}],n:1} {m:|{"k":{foo:2}}|,n:2} {u:{foo:3}(({foo:int64},string)),n:3} {l:["foo"],n:4} {s:|["foo","bar"]|,n:5} {l:[1,2],n:6}`,
+	"token-in-type-value": `{t:<{foo:int64}>,n:1} {t:<string>,n:2} {t:<foo=int64>,n:3}`,
+	"token-in-named-type": `{a:1(foo=int64),n:1} {a:2,n:2} {a:{b:1}(=foo),n:3}`,
+	"numbers-and-nulls":   `{a:1,b:2.5,n:1} {a:null(int64),b:1.,n:2} {a:3,n:3} {a:"1",n:4} {a:1(uint8),n:5}`,
+	"ips-and-nets":        `{a:10.0.0.1,n:1} {a:10.0.0.0/8,n:2} {a:"10.0.0.1",n:3} {a:::1,n:4}`,
+	"mixed-shapes":        `{a:"foo"} 7 "foo" [1,"foo"] {a:{b:"foo"}} null {a:error("foo")}`,
 }
 
 func c04Programs() []struct {
